@@ -65,7 +65,7 @@ def risk(sym):
             "borrow": borrow}
 
 
-def index_frame(liq_steps, bor_steps, n, start=T0):
+def index_frame(liq_steps, bor_steps, n, start=T0, rates=("0.031", "0.047")):
     """Per-token frame; indices are products of the given per-bar growth factors (non-decreasing)."""
     idx = minutes(n, start)
     li, bi = Decimal("1.02"), Decimal("1.05")
@@ -75,8 +75,8 @@ def index_frame(liq_steps, bor_steps, n, start=T0):
         bi = bi * Decimal(str(bor_steps[i % len(bor_steps)]))
         L.append(li)
         B.append(bi)
-    return pd.DataFrame(index=idx, data={"liquidity_rate": [Decimal("0.031")] * n, "stable_borrow_rate": [Decimal("0.06")] * n,
-                                         "variable_borrow_rate": [Decimal("0.047")] * n, "liquidity_index": L,
+    return pd.DataFrame(index=idx, data={"liquidity_rate": [Decimal(rates[0])] * n, "stable_borrow_rate": [Decimal("0.06")] * n,
+                                         "variable_borrow_rate": [Decimal(rates[1])] * n, "liquidity_index": L,
                                          "variable_borrow_index": B})
 
 
@@ -93,9 +93,9 @@ STEP_SETS = {
 def make_data(n=4, steps=None):
     steps = steps or STEP_SETS
     frames = {}
-    for t in TOKENS:
+    for i, t in enumerate(TOKENS):
         ls, bs = steps[t.name]
-        frames[t.name] = index_frame(ls, bs, n)
+        frames[t.name] = index_frame(ls, bs, n, rates=(f"0.0{11 + 7 * i}", f"0.0{23 + 9 * i}"))
     return frames
 
 
@@ -138,9 +138,12 @@ class AaveAdapter:
                [f"borrow[{k.name}]" for k, v in m._borrows.items() if v.base_amount < 0]
 
     def indices(self, sym):
-        ts = self.ctx.index[self.ctx.bar]
-        row = self.frames[sym].loc[ts]
-        return F(row["liquidity_index"]), F(row["variable_borrow_index"])
+        key = (sym, self.ctx.bar)
+        c = self.__dict__.setdefault("_idx_cache", {})
+        if key not in c:
+            row = self.frames[sym].loc[self.ctx.index[self.ctx.bar]]
+            c[key] = (F(row["liquidity_index"]), F(row["variable_borrow_index"]))
+        return c[key]
 
     def ref_positions(self):
         """(supplies {sym: (amount, value, collateral)}, borrows {sym: (amount, value)}) in exact arithmetic."""
